@@ -73,11 +73,16 @@ class StringField(Field):
             else:
                 value = value.strip()
 
-        if self.required and not value:
-            raise ValueError("value is required")
-
         if self.transform_case:
             value = value.lower() if self.transform_case == "lower" else value.upper()
+            # changing the case can expose characters that have to be stripped
+            if isinstance(self.transform_strip, str):
+                value = value.strip(self.transform_strip)
+            elif self.transform_strip:
+                value = value.strip()
+
+        if self.required and not value:
+            raise ValueError("value is required")
 
         if self.min_len is not None and len(value) < self.min_len:
             raise ValueError("value must be at least %d characters" % self.min_len)
